@@ -241,9 +241,9 @@ def check(idx: Index, rep: Report, tier: str) -> str:
     f = idx.func(BUILDER, "Builder.insert")
     loops = [w for w in walk_local(f.node) if isinstance(w, ast.For) and any(unparse(c.func) == "self.handle_operation_insertion" for c in calls_in(w))]
     ok = False
-    if loops:
-        w = loops[0]
-        cfg = CFG(f.node)
+    good_heads = set()
+    cfg = CFG(f.node)
+    for w in loops:
         defs = [v for _, v in reaching_defs(cfg, unparse(w.iter), cfg.node_of(w)) if v is not None] if isinstance(w.iter, ast.Name) else []
         call = [c for c in calls_in(w) if unparse(c.func) == "self.handle_operation_insertion"][0]
         facts = guard_facts(w, call)
@@ -253,8 +253,18 @@ def check(idx: Index, rep: Report, tier: str) -> str:
         dtexts = {unparse(d_) for d_ in defs}
         iter_ok = bool(defs) and (dtexts <= whole or (dtexts <= parts and opn in dtexts and len(dtexts) == 2))
         if iter_ok and unparse(call.args[0]) == unparse(w.target) and not facts:
-            ok = True
-    (r2.ok(f.fq + ":each", f"{f.loc} handle_operation_insertion(op_) for every inserted op") if ok else r2.fail(f.fq + ":each", Finding("C11.R2", f.fq, "insertion-not-each", "handle_operation_insertion is not called unconditionally for every inserted operation", f.loc)))
+            good_heads.add(cfg.node_of(w))
+    ins_calls = [c for c in calls_in(f.node) if unparse(c.func).endswith("Rewriter.insert_op")]
+    if good_heads and ins_calls:
+        # every way out of the function after the operations were inserted passes such a notification loop
+        ok = all(cfg.path_avoiding(cfg.node_of(c), cfg.exit, lambda n: n.id in good_heads, follow_exc=False) is None for c in ins_calls)
+    if ok:
+        r2.ok(f.fq + ":each", f"{f.loc} handle_operation_insertion(op_) for every inserted op")
+    elif good_heads and ins_calls:
+        pth_ = next(p_ for p_ in (cfg.path_avoiding(cfg.node_of(c), cfg.exit, lambda n: n.id in good_heads, follow_exc=False) for c in ins_calls) if p_ is not None)
+        r2.fail(f.fq + ":each", Finding("C11.R2", f.fq, "insertion-unnotified-path", "a path leaves Builder.insert after the operations were inserted without passing the loop that reports each of them to the listeners (the walker does not learn about the new ops: they are never visited): " + " -> ".join(cfg.describe(pth_)[-4:]), f.loc))
+    else:
+        r2.fail(f.fq + ":each", Finding("C11.R2", f.fq, "insertion-not-each", "handle_operation_insertion is not called unconditionally for every inserted operation", f.loc))
     # modification notified for every re-routed user
     for qual, lst in (("PatternRewriter.replace_all_uses_with", "modified_ops"), ("PatternRewriter.replace_uses_with_if", "tracking.modified_ops")):
         f = idx.func(PR, qual)
